@@ -179,11 +179,19 @@ func (p *FloatingIPPlugin) unbind(pod *corev1.Pod) error {
 		return err
 	}
 	key := keyObj.KeyInDB
-	if p.cloudProvider != nil {
-		ipInfos, err := p.ipam.ByKeyAndIPRanges(key, nil)
-		if err != nil {
-			return fmt.Errorf("query floating ip by key %s: %v", key, err)
+	ipInfos, err := p.ipam.ByKeyAndIPRanges(key, nil)
+	if err != nil {
+		return fmt.Errorf("query floating ip by key %s: %v", key, err)
+	}
+	for _, ipInfo := range ipInfos {
+		// a late delete/finish event of an earlier incarnation of this pod name must not release or unassign
+		// the ip that a re-created pod (same name, new uid) has been bound with, see allocateIP
+		if ipInfo.PodUid != "" && string(pod.UID) != "" && ipInfo.PodUid != string(pod.UID) {
+			glog.Infof("skip unbinding pod %s uid %s, its ip is held by a pod with uid %s", key, pod.UID, ipInfo.PodUid)
+			return nil
 		}
+	}
+	if p.cloudProvider != nil {
 		for _, ipInfo := range ipInfos {
 			ipStr := ipInfo.IPInfo.IP.IP.String()
 			glog.Infof("UnAssignIP nodeName %s, ip %s, key %s", ipInfo.NodeName, ipStr, key)
